@@ -14,15 +14,17 @@ RULE = ("Seeded plans: one API operation (get, multiget, getnext, multigetnext, 
         "bulkwalk, table, bulktable; v3 includes the discovery exchange) x wall-clock mode {tied to virtual time, constant, "
         "advancing on every read, jumping forwards/backwards at plan-listed reads} x agent behaviour at the k-th request "
         "{echo, id+1, id-1, arbitrary id, id of the previous request, other community, other version field, discovery reply "
-        "with foreign msgID} x v1/v2c/v3 levels. Oracle: conformant echo => same result as the twin run under the tied "
-        "clock; perturbed id => InvalidResponseId and no result; foreign community/version => SnmpError; foreign discovery "
+        "with foreign msgID; any of them optionally with error-status noSuchName} x v1/v2c/v3 levels x wall-clock dates before "
+        "and after 19 January 2038 x (v1/v2c) a client that was used with another community before and re-configured, the "
+        "foreign community then being that earlier one. Oracle: conformant echo => same result as the twin run under the tied "
+        "pre-2038 clock on a client without that history, and never InvalidResponseId; perturbed id => InvalidResponseId and no result; foreign community/version => SnmpError; foreign discovery "
         "msgID => refused and no credentialed request follows. Non-trivial: the targeted request was reached; distinct = "
         "distinct (protocol level, operation, clock mode, behaviour, target index, outcome).")
 ASSUMPTIONS = [
     "a perturbed id that happens to equal the id of the request actually sent (constant clock, 'previous id') counts as an echo",
     "wrong id combined with non-zero error-status is not generated (neither C07 nor C08 says which exception wins)",
 ]
-PROBES = ["clock_after_2038", "clock_stepping", "clock_jumping", "clock_constant", "id_plus_1", "id_minus_1", "id_arbitrary", "id_previous",
+PROBES = ["used_with_another_community_before", "clock_after_2038", "clock_stepping", "clock_jumping", "clock_constant", "id_plus_1", "id_minus_1", "id_arbitrary", "id_previous",
           "other_community", "other_version", "disco_foreign_msgid", "perturb_inside_walk", "multiset_stepping",
           "jump_fired", "v1", "v3", "foreign_response_with_error_status"]
 shrink_lists: List[tuple] = [("mib",)]
@@ -75,7 +77,13 @@ def plan_for(tier: str, seed: int, i: int) -> dict:
         # a wall clock after 19 January 2038: the clock-derived request id no longer fits Integer32, the agent echoes
         # what it received all the same ("no matter how the clock advances")
         clock["epoch"] = mrng.choice([2**31, 2**31 + 1, 4_102_444_800, 2**32 + 7])
+    # history (community-based versions): the client was used with ANOTHER community before and has been re-configured; the
+    # "foreign community" of the perturbed response is then that earlier one
+    prior = None
+    if version != "v3" and mrng.random() < 0.25:
+        prior = mrng.choice(["old-comm", "public0", proto["community"] + "2", proto["community"][:-1] or "p"])
     return {"prop": ID, "proto": proto, "mib": sorted(mib.items()), "op": op, "behaviour": beh, "with_error": with_error,
+            "prior_community": prior,
             "target": rng.randrange(0, 4), "arb": rng.choice([0, 1, -1, 2**31 - 1, -(2**31), 12345]), "clock": clock}
 
 
@@ -91,15 +99,23 @@ def simplify(plan: dict):
         p = dict(plan); p["clock"] = {"mode": "stepping", "epoch": 1000, "step": 1}; yield p
     if plan["target"] > 0:
         p = dict(plan); p["target"] = 0; yield p
+    if plan.get("prior_community"):
+        p = dict(plan); p["prior_community"] = None; yield p
 
 
-def _run(plan: dict, clock: dict, behaviour: str) -> dict:
+def _run(plan: dict, clock: dict, behaviour: str, with_prior: bool = True) -> dict:
     proto = plan["proto"]
+    prior = plan.get("prior_community") if with_prior else None
     w = World(clock=clock)
     agent = w.add_agent(agent_for(proto, dict(plan["mib"])))
-    st: Dict[str, Any] = {"n": -1, "prev": None, "applied": None, "after_bad_disco": 0, "bad_disco": False}
+    st: Dict[str, Any] = {"n": -1, "prev": None, "applied": None, "after_bad_disco": 0, "bad_disco": False, "armed": True}
+    if prior:
+        for comms in agent.communities.values():
+            comms.add(prior.encode("ascii"))
 
     def hook(req: dict, resp: dict) -> Optional[dict]:
+        if not st["armed"]:
+            return resp
         st["n"] += 1
         rid = req["pdu"]["rid"]
         prev, st["prev"] = st["prev"], rid
@@ -111,7 +127,7 @@ def _run(plan: dict, clock: dict, behaviour: str) -> dict:
             resp = dict(resp, es=2, ei=1 if req["pdu"]["vbs"] else 0, vbs=list(req["pdu"]["vbs"]))
             st["with_error"] = True
         if behaviour == "community":
-            req["out_community"] = req["community"] + b"x"
+            req["out_community"] = prior.encode("ascii") if prior else req["community"] + b"x"
             st["applied"] = "community"
             return resp
         if behaviour == "version":
@@ -136,10 +152,19 @@ def _run(plan: dict, clock: dict, behaviour: str) -> dict:
 
     agent.hook_pdu = hook
     agent.hook_v3 = hook_v3
-    client = w.client(proto, timeout=1, retries=1)
+    client = w.client(dict(proto, community=prior) if prior else proto, timeout=1, retries=1)
     res = exc = None
 
     async def one() -> Any:
+        if prior:
+            from ..world import make_credentials
+            st["armed"] = False
+            try:
+                await scen.do_op(client, {"op": "get", "oid": (1, 3, 6, 1, 2, 1, 1, 1, 0)})
+            except Exception:  # noqa: BLE001
+                pass
+            client.configure(credentials=make_credentials(proto))
+            st["armed"] = True
         return await scen.do_op(client, plan["op"])
     try:
         res = w.run(one())
@@ -176,7 +201,8 @@ def execute(plan: dict) -> dict:
     if a["applied"] is None:
         # conformant echo (or the perturbation never applied): must behave as under the tied clock
         # (a wall clock after 2038 is compared with a twin before 2038: the date must not matter either)
-        b = _run(plan, {"mode": "tied", "epoch": min(plan["clock"]["epoch"], 1_700_000_000)}, "echo")
+        # ... and a client without the earlier community in its history
+        b = _run(plan, {"mode": "tied", "epoch": min(plan["clock"]["epoch"], 1_700_000_000)}, "echo", with_prior=False)
         digests.append(b["digest"])
         exchanges += b["exchanges"]
         sim_s += b["sim_s"]
@@ -211,6 +237,7 @@ def execute(plan: dict) -> dict:
     probes = {k: 0 for k in PROBES}
     probes["clock_" + mode] = 1 if mode != "tied" else 0
     probes.pop("clock_tied", None)
+    probes["used_with_another_community_before"] = int(bool(plan.get("prior_community")))
     probes["clock_after_2038"] = int(plan["clock"]["epoch"] >= 2**31)
     for k, name in (("plus1", "id_plus_1"), ("minus1", "id_minus_1"), ("arbitrary", "id_arbitrary"),
                     ("previous", "id_previous"), ("community", "other_community"), ("version", "other_version"),
